@@ -19,10 +19,15 @@ Not covered here: the chrono/time conversions (C16 models the foreign crates abs
 `str::parse` and formatting internals (std).
 -/
 import JulianVerif.Lemmas.CheckedMisc
+import JulianVerif.Lemmas.CheckedCmp
 namespace JV.C05
 open JV Spec
 
-/-! ### the conversion kernels of inner.rs -/
+/-! ### the conversion kernels of inner.rs
+
+The `Chk.*` functions of this section (and `Chk.gapKindForDates`, `Chk.cmpIntRange`,
+`Chk.cmpYmRange`) are not written by hand: Model/CheckedInner.lean is generated from inner.rs
+by bin/srcgen and regenerated and compared on every run (DESIGN.md 0.8). -/
 
 /-- `jdn2julian` / `jdn2gregorian`: no i32 operation overflows for any i32 day number -/
 theorem decompose_no_overflow (j : Int) (hj : InI32 j) :
@@ -187,5 +192,15 @@ theorem checked_layer_examples :
     ∧ Chk.gregorian2jdn 5874897 600 = none
     ∧ Chk.nthDay (.gapped 5 14 31) 4294967295 = some none := by
   refine ⟨rfl, rfl, rfl, rfl, rfl⟩
+
+/-- the two range comparisons of inner.rs (`cmp_int_range`, `cmp_ym_range`, generated from the
+source with their `debug_assert!`s explicit): no assertion fires when the lower bound is not
+above the upper one — which is what `ReformGap::cmp_year` / `cmp_year_month` pass, the last
+Julian label being below the first Gregorian one (C03) — and the results are the pure model's -/
+theorem range_comparisons_checked (v l u : Int) (h : l ≤ u) (y : Int) (m : Month) (ly : Int) (lm : Month)
+    (uy : Int) (um : Month) (h' : ymKey ly lm ≤ ymKey uy um) :
+    Chk.cmpIntRange v l u = some (cmpIntRange v l u)
+    ∧ Chk.cmpYmRange (y, m) (ly, lm) (uy, um) = some (cmpYmRange y m ly lm uy um) :=
+  ⟨Chk.cmpIntRange_eq v l u h, Chk.cmpYmRange_eq y m ly lm uy um h'⟩
 
 end JV.C05
